@@ -29,7 +29,7 @@ inductive Decl
   | exp (n : Name)
   | fwd (n : Name)
   | func (n : Name)
-  | data (n : Name)
+  | data (n : Name)   -- any named non-function item: data/bss/ref/expr, alone or head of a section
   | imp (n : Name) (u : Use)
   deriving DecidableEq, Repr
 
